@@ -418,7 +418,7 @@ fn gen_part2(thorough: bool, rng: &mut Rng, out: &mut dyn FnMut(String)) {
     // ---- 7c. flat insert of very many (index, value) pairs: 1000 … 8193 directly, 16 385 … 70 000 (beyond 65 536) through the reference
     {
         let mut plans: Vec<(usize, usize, usize, bool)> = vec![(4, 1000, 5, true), (10, 1001, 3, true), (100, 4097, 11, true), (4, 8193, 5, true), (16, 16385, 7, false), (4, 32769, 5, false), (4, 70000, 5, false), (100, 65537, 9, false)];
-        if thorough { plans.extend([(4, 65536, 5, false), (4, 65537, 2, false), (1000, 66000, 1001, false), (0, 65600, 1, false), (4, 16385, 5, true), (4, 131073, 5, false)]); }
+        if thorough { plans.extend([(4, 65536, 5, false), (4, 65537, 2, false), (1000, 66000, 1001, false), (1, 65600, 1, false), (4, 16385, 5, true), (4, 131073, 5, false)]); }
         for (n, k, pool, direct) in plans {
             let a = tag(&[n]);
             let pos: Vec<usize> = if pool > n { (0..=n).collect() } else { (0..pool).map(|_| rng.below(n + 1)).collect() };
@@ -436,7 +436,8 @@ fn gen_part2(thorough: bool, rng: &mut Rng, out: &mut dyn FnMut(String)) {
         for ax in 0..nd {
             // the crate's `split` is quadratic in the number of parts (3 s per call for 70 000): axes up to 3000 positions only
             if s[ax] > 3000 { continue; }
-            let c: Vec<usize> = (0..s[ax]).map(|_| rng.below(3)).collect(); out(format!("n repeat {a} {} {ax}", show_list(&c)));
+            let mut c: Vec<usize> = (0..s[ax]).map(|_| rng.below(3)).collect(); c[0] = c[0].max(1);      // the reference abstains on all-zero counts
+            out(format!("n repeat {a} {} {ax}", show_list(&c)));
             if n <= 70000 { out(format!("n repeat {a} 2 {ax}")); }
         }
         if nd == 1 { out(format!("trim {a}")); out(format!("n insert {a} {},0,{} i3+1000000", n, n / 2)); }
@@ -848,5 +849,5 @@ fn nontrivial(op: &str, args: &[&str]) -> bool {
 
 fn main() {
     harness_main(Spec { prop: "C13", gen, exec, nontrivial, hang_secs: 20,
-        rule: "every shape rank<=4 len<=3 (+ lengths 4-5): delete along every axis for EVERY subset of its indices (+ reversed / repeated requests, out-of-range index and axis), flat delete (every subset when <=6 elements, sampled multisets otherwise); flat insert of 1 value at every position 0..=n, 2-3 values at sampled (also repeated) positions, one value at several positions, several values at one position, malformed; insert-then-delete round trips; append of 0..3 values; repeat along every axis with EVERY count vector in {0,1,2}^d and single counts, flat repeat; trim_zeros on every zero/non-zero pattern up to length 7 (8); seeded random rank 5. Robustness streams: flat delete of 20..4100 DISTINCT positions (shuffled / ascending / descending / with repeats) from lanes of 24..4100 elements, delete along axes of length 65..1030, every operation on big_shapes() (axis lengths 7-17, > 256/1024/4096 elements), flat insert of 20..300 (index,value) pairs with many shared positions (request order observable), zero-length axes for every operation, trim_zeros value classes (+0, -0, NaN, subnormals, infinities, extreme integers, zero-looking strings; exhaustive over {+0,-0,NaN,1} to length 5 (7), random over all classes, lanes up to 4100). Every case runs on i64 tags and on u8 / i16 / i64>2^53 / f64(-0.0) / f32 / String / bool images, plain and Result receiver. Tag arrays. non-trivial = >=2 elements and a non-empty request" });
+        rule: "every shape rank<=4 len<=3 (+ lengths 4-5): delete along every axis for EVERY subset of its indices (+ reversed / repeated requests, out-of-range index and axis), flat delete (every subset when <=6 elements, sampled multisets otherwise); flat insert of 1 value at every position 0..=n, 2-3 values at sampled (also repeated) positions, one value at several positions, several values at one position, malformed; insert-then-delete round trips; append of 0..3 values; repeat along every axis with EVERY count vector in {0,1,2}^d and single counts, flat repeat; trim_zeros on every zero/non-zero pattern up to length 7 (8); seeded random rank 5. Robustness streams: flat delete of 20..4100 DISTINCT positions (shuffled / ascending / descending / with repeats) from lanes of 24..4100 elements, delete along axes of length 65..1030, every operation on big_shapes() (axis lengths 7-17, > 256/1024/4096 elements), flat insert of 20..300 (index,value) pairs with many shared positions (request order observable), zero-length axes for every operation, trim_zeros value classes (+0, -0, NaN, subnormals, infinities, extreme integers, zero-looking strings; exhaustive over {+0,-0,NaN,1} to length 5 (7), random over all classes, lanes up to 4100). Every case runs on i64 tags and on u8 / i16 / i64>2^53 / f64(-0.0) / f32 / String / bool images, plain and Result receiver. Tag arrays.  Part 2: seq lines (calls back to back on one thread: a request followed by a different request of the same length / sum / xor / polynomial hash / 32-bit FNV fingerprint (birthday search), refused-then-valid, A-B-A), n lines (request size x lane length above 2^26, more than 65536 inserted pairs, lanes of 8200..70000 along an axis) judged by the harness-native index-filter reference, which is compared with the full model answer on every other structural case of the run (oracle_report lines); every axis length 1..300 in a non-leading position; indices c+2^8, c+2^16, c+2^32; append_self / insert_self (aliasing); ranks 5-8; implicit A-B-A re-runs in exec. non-trivial = >=2 elements and a non-empty request (seq / n lines: some call of the line)" });
 }
